@@ -575,7 +575,8 @@ def check(ctx, replay=None):
         if flags.get("valid") != "1":
             raise core.CheckError("the generator produced an invalid zigzag sequence (machinery bug): %r" % line[:300])
         for f, nm in (("betti", "alive-count-differs-from-betti"), ("po", "insertion-only-differs-from-certified-pairing"),
-                      ("fullres", "skipped-sequence-differs-from-restriction"), ("mnn", "negative-multiplicity")):
+                      ("fullres", "skipped-sequence-differs-from-restriction"), ("mnn", "negative-multiplicity"),
+                      ("kok", "generated-sequence-not-keyed-ok")):
             if flags.get(f) == "0":
                 report("spec-selfcheck:" + nm, s, mode, dm, sh, len(s["ops"]), "the SPECIFICATION is inconsistent with itself (%s): machinery error" % nm, "1", "0", "-")
         if mode == "Z":
